@@ -42,7 +42,7 @@ def objOfJson (j : J) : Obj :=
   match j.strD "o" with
   | "type" => .type { kind := kindOf (j.strD "kind"), name := j.strD "name", desc := optStr j "desc", fields := natList j "fields",
                       ifaces := refList j "ifaces", members := refList j "members", dres := optNat j "dres", rtype := optNat j "rtype",
-                      values := strList j "values", prot := j.boolD "prot" }
+                      values := strList j "values", prot := j.boolD "prot", cls := optNat j "cls" }
   | "field" => .field { name := j.strD "name", ty := trefOfJson (j.getD "ty"), args := natList j "args", desc := optStr j "desc",
                         depr := optStr j "depr", res := optNat j "res", sub := optNat j "sub", py := j.strD "py" }
   | "dir" => .dir { name := j.strD "name", args := natList j "args", locs := strList j "locs", desc := optStr j "desc" }
@@ -52,7 +52,7 @@ def objToJson : Obj → J
   | .type t => .obj [("o", .str "type"), ("kind", .str (kindStr t.kind)), ("name", .str t.name), ("desc", ofOptStr t.desc),
                      ("fields", .arr (t.fields.map J.ofNat)), ("ifaces", .arr (t.ifaces.map refToJson)),
                      ("members", .arr (t.members.map refToJson)), ("dres", ofOptNat t.dres), ("rtype", ofOptNat t.rtype),
-                     ("values", J.ofStrs t.values), ("prot", .bool t.prot)]
+                     ("values", J.ofStrs t.values), ("prot", .bool t.prot), ("cls", ofOptNat t.cls)]
   | .field f => .obj [("o", .str "field"), ("name", .str f.name), ("ty", trefToJson f.ty), ("args", .arr (f.args.map J.ofNat)),
                       ("desc", ofOptStr f.desc), ("depr", ofOptStr f.depr), ("res", ofOptNat f.res), ("sub", ofOptNat f.sub),
                       ("py", .str f.py)]
@@ -80,7 +80,8 @@ def cfgOfJson (j : J) : Cfg :=
     extKeepAll := j.boolD "extKeepAll", extSchemaDres := j.boolD "extSchemaDres",
     extInputFieldExtended := j.boolD "extInputFieldExtended",
     cloneRegsDeep := j.boolD "cloneRegsDeep" true, cloneRegsFiltered := j.boolD "cloneRegsFiltered" true,
-    cloneRegsByValue := j.boolD "cloneRegsByValue" true, extKeepRegs := j.boolD "extKeepRegs" true }
+    cloneRegsByValue := j.boolD "cloneRegsByValue" true, extKeepRegs := j.boolD "extKeepRegs" true,
+    extLeafCopied := j.boolD "extLeafCopied" true }
 
 def strPairs (j : J) (k : String) : List (String × String) :=
   (j.arrD k).filterMap fun e => match e with | .arr [.str a, .str b] => some (a, b) | _ => none
@@ -111,7 +112,7 @@ partial def tnOfJson (j : J) : TN :=
 
 def extArgOfJson (j : J) : ExtArg := { name := j.strD "name", ty := tnOfJson (j.getD "ty") }
 def extFieldOfJson (j : J) : ExtField :=
-  { name := j.strD "name", ty := tnOfJson (j.getD "ty"), args := (j.arrD "args").map extArgOfJson }
+  { name := j.strD "name", ty := tnOfJson (j.getD "ty"), args := (j.arrD "args").map extArgOfJson, res := optNat j "res" }
 
 def objEntries (j : J) (k : String) : List (String × J) := ((j.get? k).bind J.asObj?).getD []
 
